@@ -9,7 +9,7 @@ SPEC = {
     "rule": ("Cases: (a) address values of every kind x network (repo strategy arb_address, boundary payloads, "
              "unified addresses / UFVKs / UIVKs hand-built from arbitrary known + unknown items incl. rule-breaking "
              "item sets) encoded and parsed back; (p) strings *encoded by the Python reference*, well-formed and "
-             "malformed in exactly one way (122 classes: padding, order, duplicates, P2PKH+P2SH, transparent-only, "
+             "malformed in exactly one way (120+ classes: padding, order, duplicates, P2PKH+P2SH, transparent-only, "
              "item lengths, compactSize, checksum variant, prefix, 5-bit padding, case, whitespace, length bounds) "
              "with the reference verdict; (c) random edits of valid strings; (e) arbitrary Unicode / long strings; "
              "(d) F4Jumble on lengths dense at both ends of 48..4194368, at the structural boundaries and "
@@ -45,7 +45,8 @@ SPEC = {
             "mutants_rejected": 50_000, "mutants_accepted": 3_000, "fuzz_strings": 30_000, "long_strings": 100,
             "accepted_strings_reencoded": 10_000,
             "f4_lengths_checked": 3_000, "f4_min_length_checked": 1, "f4_max_length_checked": 1,
-            "f4_invalid_lengths_rejected": 100, "max_f4_length": 4194368,
+            "f4_invalid_lengths_rejected": 100, "max_f4_length": 4194368, "f4_class_1M__max": 40,
+            "f4_class_48__127_l_L_64_": 200, "f4_class_128__191": 100, "large_containers_tried": 3,
             "typed_roundtrips_unified": 400, "typed_roundtrips_sapling": 200, "typed_roundtrips_tex": 200,
             "typed_unknown_items_preserved": 400,
             "py_checked_encoder_strings": 8_000, "py_checked_container_strings": 3_000,
@@ -58,6 +59,7 @@ SPEC = {
             "py_cases": 100_000, "py_cases_accepted_as_expected": 7_000, "py_cases_rejected_as_expected": 90_000,
             "py_case_classes_generated": 117, "mutants_rejected": 1_000_000, "fuzz_strings": 500_000,
             "f4_lengths_checked": 100_000, "f4_min_length_checked": 1, "f4_max_length_checked": 1, "max_f4_length": 4194368,
+            "f4_class_1M__max": 1_000, "large_containers_tried": 3,
             "typed_roundtrips_unified": 20_000,
             "py_checked_encoder_strings": 100_000, "py_checked_container_strings": 50_000,
             "py_checked_parser_verdicts": 300_000, "py_checked_f4jumble_outputs": 10_000,
@@ -71,7 +73,7 @@ SPEC = {
                       "malformed strings fed to Rust), round-trip / canonical-form / network-guard invariants at the API "
                       "boundary, random string edits and Unicode fuzzing with panics caught per call"),
         "text": ("Every address kind on every network, hand-built unified addresses/UFVKs/UIVKs with arbitrary known and "
-                 "unknown items, >10^4 Python-encoded strings in 122 well-formed/malformed classes, >10^5 edited and "
+                 "unknown items, >10^4 Python-encoded strings in 120+ well-formed/malformed classes, >10^5 edited and "
                  "random strings and thousands of F4Jumble lengths (both ends of the valid range included) are executed "
                  "against the real code; accept/reject verdicts, parsed items, canonical re-encoding and F4Jumble outputs "
                  "are compared with reference implementations written from the specifications."),
